@@ -45,6 +45,7 @@ func init() {
 			ruleAmbiguityNeedsAgreement(c, "R6")
 			ruleAmbiguitySearchSeesSplits(c, "R7")
 			ruleAmbiguitySearchDiscipline(c, "R8", "R9")
+			ruleAmbiguitySkipIsTextLength(c, "R10")
 		},
 	})
 	register(&Spec{
